@@ -4,6 +4,7 @@
 import Driver.Util
 import Driver.More
 import Saltpack.Model.Codec
+import Saltpack.Model.Front
 import Driver.Ext
 
 open Saltpack
@@ -98,14 +99,12 @@ def handle (toks : List String) : String :=
       match mkKeyring secrets ls lp ie lsig with
       | none => bad
       | some kr =>
-        -- bytes the spec-shaped reader (`Wire`) does not cover are read the way go-codec reads them (`Codec`, typed
-        -- decoding incl. its leniencies); only what neither models goes to the decoded-packets route
-        match (match Wire.splitEnc msg with
-               | .ok x => Except.ok x
-               | .unmodelled w => (match Codec.splitEnc msg with | .ok x => .ok x | .error _ => .error w)) with
+        -- `Decrypt.openBytes` (Model/Front.lean): bytes the spec-shaped reader (`Wire`) does not cover are read the
+        -- way go-codec reads them (`Codec`, typed decoding incl. its leniencies); only what neither models goes to
+        -- the decoded-packets route
+        match Decrypt.openBytes RealPrims valid kr msg with
         | .error w => s!"unmodelled {w.replace " " "_"}"
-        | .ok (hr, ps) =>
-          let r := Decrypt.openStream RealPrims valid kr hr ps
+        | .ok r =>
           let mki := match r.err, r.mki with
             | none, some m => showMKI m
             | _, _ => "-"
@@ -128,14 +127,10 @@ def handle (toks : List String) : String :=
       match mkKeyring secrets ls lp ie lsig with
       | none => bad
       | some kr =>
-        -- bytes the spec-shaped reader (`Wire`) does not cover are read the way go-codec reads them (`Codec`, typed
-        -- decoding incl. its leniencies); only what neither models goes to the decoded-packets route
-        match (match Wire.splitSigncrypt msg with
-               | .ok x => Except.ok x
-               | .unmodelled w => (match Codec.splitSigncrypt msg with | .ok x => .ok x | .error _ => .error w)) with
+        -- `Signcrypt.openBytes` (Model/Front.lean): `Wire` first, `Codec` for what `Wire` calls unmodelled
+        match Signcrypt.openBytes RealPrims kr res msg with
         | .error w => s!"unmodelled {w.replace " " "_"}"
-        | .ok (hr, ps) =>
-          let r := Signcrypt.openStream RealPrims kr res hr ps
+        | .ok r =>
           let snd := match r.err with
             | none => (match r.sender with | some s => toHex s | none => "anon")
             | some _ => "-"
@@ -163,14 +158,10 @@ def handle (toks : List String) : String :=
       match mkKeyring [] "none" "nil" "nil" lsig with
       | none => bad
       | some kr =>
-        -- bytes the spec-shaped reader (`Wire`) does not cover are read the way go-codec reads them (`Codec`, typed
-        -- decoding incl. its leniencies); only what neither models goes to the decoded-packets route
-        match (match Wire.splitSig msg with
-               | .ok x => Except.ok x
-               | .unmodelled w => (match Codec.splitSig msg with | .ok x => .ok x | .error _ => .error w)) with
+        -- `Sign.verifyBytes` (Model/Front.lean): `Wire` first, `Codec` for what `Wire` calls unmodelled
+        match Sign.verifyBytes RealPrims valid kr msg with
         | .error w => s!"unmodelled {w.replace " " "_"}"
-        | .ok (hr, ps) =>
-          let r := Sign.verifyStream RealPrims valid kr hr ps
+        | .ok r =>
           let snd := match r.err, r.signer with
             | none, some s => toHex s
             | _, _ => "-"
@@ -182,19 +173,11 @@ def handle (toks : List String) : String :=
       match mkKeyring [] "none" "nil" "nil" lsig with
       | none => bad
       | some kr =>
-        match (match Wire.splitDetached sigmsg with
-               | .ok x => Except.ok x
-               | .unmodelled w =>
-                 (match Codec.splitDetached sigmsg with
-                  | .ok (hr, .sig s) => .ok (hr, Sign.SigRead.sig s)
-                  | .ok (hr, .eof) => .ok (hr, Sign.SigRead.none .unexpectedEOF)
-                  | .ok (hr, .err) => .ok (hr, Sign.SigRead.none .decodeError)
-                  | .error _ => .error w)) with
+        -- `Sign.verifyDetachedBytes` (Model/Front.lean)
+        match Sign.verifyDetachedBytes RealPrims valid kr sigmsg msg with
         | .error w => s!"unmodelled {w.replace " " "_"}"
-        | .ok (hr, sr) =>
-          match Sign.verifyDetached RealPrims valid kr hr sr msg with
-          | .ok k => s!"res ok signer={toHex k}"
-          | .error e => s!"res {showErr e} signer=-"
+        | .ok (.ok k) => s!"res ok signer={toHex k}"
+        | .ok (.error e) => s!"res {showErr e} signer=-"
     | _, _, _ => bad
   | _ => handleMore toks
 where
